@@ -68,6 +68,7 @@ from pip._internal.cli.cmdoptions import src
 from vsc.model.solvegroup_swizzler_range import SolveGroupSwizzlerRange
 from vsc.model.solvegroup_swizzler_partsel import SolveGroupSwizzlerPartsel
 from vsc.impl.ctor import glbl_debug, glbl_solvefail_debug
+from vsc.impl import verif_hook
 
 
 class Randomizer(RandIF):
@@ -600,6 +601,13 @@ class Randomizer(RandIF):
 #        if Randomizer._rng is None:
 #            Randomizer._rng = random.Random(random.randrange(sys.maxsize))
         ri = RandInfoBuilder.build(field_model_l, constraint_l, Randomizer._rng)
+        
+        if verif_hook.enabled:
+            verif_hook.emit("pre_solve",
+                            field_model_l=field_model_l,
+                            constraint_l=constraint_l,
+                            rand_info=ri,
+                            bound_m=bounds_v.bound_m)
         
         try:
             r.randomize(ri, bounds_v.bound_m)
